@@ -1,4 +1,4 @@
-import PedVerif.Lemmas.CheckerSound
+import PedVerif.Lemmas.CheckerEnvs
 /-!
 # C01 — the type checker is sound: a non-conforming value is never accepted
 
@@ -69,28 +69,6 @@ theorem one_bad_element_rejected (env : Env) (orc : Nat → Val → Raw) (hw : W
     checkType env orc (.seq sp o a) (.coll c (pre ++ bad :: post)) ≠ .accept := by
   apply corruption_rejected env orc hw hs _ _ (by simpa [Ann.noSpecial] using hns) hwf hp
   simp [conforms, Val.iter, hbad]
-
-/-! ### a concrete class table for witnesses and non-vacuity: 0 object, 1 type, 2 int, 3 str, 4 list, 5 tuple, 6 Iterator,
-    7 A (user class), 8 A' (another class with the *same name* as A), 9 NT1, 10 NT2 (NamedTuples, same fields) -/
-def envW : Env where
-  sub := fun a b => a == b || b == 0 || (a == 9 && b == 5) || (a == 10 && b == 5)
-  name := fun c => if c == 8 then 7 else c
-  baseName := fun c => if c == 0 then none else some 0
-  ctx := fun n => if n == 7 then some 7 else none
-  fieldNames := fun c => if c == 9 || c == 10 then some [20, 21] else if c ≥ 7 then some [] else none
-  litCls := fun k => match k with | .int => 2 | .str => 3 | _ => 0
-  tupleCls := 5
-  typeCls := 1
-  iteratorCls := 6
-  seqCls := fun _ => 4
-  mapCls := fun _ => 11
-  metaOf := fun _ => 1
-
-theorem envW_wf : WfEnv envW := by
-  refine ⟨?_, ?_, ?_⟩
-  · intro c; simp [envW]
-  · intro c; simp [envW]
-  · decide
 
 /-- region `strAnnNameCollision`: an instance of the unrelated class A' (same `__name__` as A) is accepted for `'A'` -/
 theorem sound_fails_strAnnNameCollision :
